@@ -47,8 +47,9 @@ theorem refines_fifo (size : Nat) (h : 1 ≤ size) (ops : List (RingOp α)) :
     semantics of `sync.Mutex` is trusted. -/
 theorem methods_are_atomic_sections :
     Generated.ringLockShape = [("Push", true), ("Pop", true), ("PopN", true)] ∧
-    Generated.ringLenIsAtomicLoad = true ∧ Generated.ringLenOnlyAtomicWrites = true :=
-  Facts.ring_atomic
+    Generated.ringLenIsAtomicLoad = true ∧ Generated.ringLenOnlyAtomicWrites = true ∧
+    Generated.ringLenAdds = [("Push", 1), ("Pop", 1), ("PopN", 1)] :=
+  ⟨Facts.ring_atomic.1, Facts.ring_atomic.2.1, Facts.ring_atomic.2.2, Facts.ring_linearization_points⟩
 
 /-- non-vacuity: a wrapped ring that is about to grow satisfies the invariant. -/
 example : ({ items := [30, 0, 10, 20], head := 1, tail := 0, len := 3 } : Ring Nat).Inv :=
